@@ -149,10 +149,13 @@ def render_version(project, version, sts=None, apps=None):
                 files['%s/evolutions/%s.py' % (pkg, evo['label'])] = \
                     spec.render_evolution_file(evo)
         mig = app.get('migrations')
-        if mig and version >= mig.get('from_version', 0):
-            files['%s/migrations/__init__.py' % pkg] = ''
-            for name, text in mig['files'].items():
-                files['%s/migrations/%s.py' % (pkg, name)] = text
+        if mig:
+            have = [(name, f) for name, f in sorted(mig['files'].items())
+                    if f.get('from', 0) <= version]
+            if have:
+                files['%s/migrations/__init__.py' % pkg] = ''
+                for name, f in have:
+                    files['%s/migrations/%s.py' % (pkg, name)] = f['text']
     if project.get('router'):
         files['router.py'] = render_router(project['router'])
     return files, installed
